@@ -125,3 +125,5 @@ for d,exp in (("in",0),("out",1)):
             if (o,n) not in ((0,2),(2,0),(1,3),(3,2)): q["skip"]=True
             add("C15.soft_reset_%s.o%dn%d"%(d,o,n),"VH_c15_soft_reset",SRV,sc+["server/c15.go"],q,{"params":{"export":exp,"routes":2},"unwind":2200,"harness_s":1800},expect_reach=["end"],fixed_clock=True,pins={"old_op":o,"new_op":n},bounds=C15B%("in (import policy)" if exp==0 else "out (export policy)")+"; this instance: old operator %d, new operator %d (0 = no policy); quick tier: 1 route and 4 of the 15 operator pairs per direction"%(o,n))
 add("C01.server_flaps","VH_c01_server_flaps",SRV,sc+["server/c01.go"],{"params":{"steps":3},"unwind":4200,"harness_s":600},{"params":{"steps":4},"unwind":4200,"harness_s":2400},expect_reach=["advertised","source_lost"],fixed_clock=True,bounds="real BgpServer.handleFSMMessage incl. its PeerDown and Established (initial table transfer) branches and fsm.stateChange: 2 eBGP sources and 1 eBGP target, one prefix, every history of 3 (quick) / 4 events over {announce (symbolic AS) / withdraw from either source, loss of a source's session, flap of the target's session}")
+for asp,nm in ((1,"timers"),(2,"caps")):
+    add("C08.open_sent_"+nm,"VH_c08_open_sent",SRV,sc+["server/c08.go"],{"aspect":asp},{"aspect":asp},expect_reach=["end"],bounds="real buildopen / capabilitiesFromConfig / capAddPathFromConfig: local AS 1..2^32-1; "+("hold time 0..65535 symbolic (float64 round trip in the FP theory), capabilities fixed" if asp==1 else "2 families on/off, ADD-PATH receive/send per family, graceful restart on/off per family, restart time symbolic; hold 90")+"; the OPEN is serialised and re-parsed")
